@@ -62,6 +62,9 @@ Proof.
   rewrite lor_aligned in * by assumption. lia.
 Qed.
 
+Lemma ok3_inv (a b : arch) (i j : inputs) (e f : event) : @Ok (arch * inputs * event) (a, i, e) = Ok (b, j, f) -> a = b /\ i = j /\ e = f.
+Proof. intros H. inversion H. auto. Qed.
+
 Ltac redop := cbn [Z.eqb Z.leb Z.ltb Z.compare Pos.eqb Pos.compare Pos.compare_cont CompOpp andb orb].
 
 (* ------------------------------------------------------------------ one clock = one ISA instruction *)
@@ -83,37 +86,37 @@ Proof.
                    op = 10 \/ op = 11 \/ op = 12 \/ op = 13 \/ op = 14 \/ op = 15) by lia.
   unfold ref_pc, ref_areg, ref_breg, ref_oreg, r_daddr, spec_we, r_br, r_pc1. fold o.
   destruct Hcases as [ -> | [ -> | [ -> | [ -> | [ -> | [ -> | [ -> | [ -> | [ -> | [ -> | [ -> | [ -> | [ -> | [ -> | [ -> | -> ]]]]]]]]]]]]]]].
-  - (* LDAM *) destruct (in_mem o) eqn:M; [|discriminate]. injection H as <- <- <-. cbn [is_read pc areg] in *. redop.
+  - (* LDAM *) destruct (in_mem o) eqn:M; [|discriminate]. apply ok3_inv in H; destruct H as [<- [<- <-]]. cbn [is_read pc areg] in *. redop.
     unfold abs. cbn [r_pc r_areg r_breg r_oreg r_mem]. destruct R as [R _]. cbn [pc] in R.
     rewrite (addr0_ok o M), (pc1_ok _ Hpc R). reflexivity.
-  - (* LDBM *) destruct (in_mem o) eqn:M; [|discriminate]. injection H as <- <- <-. cbn [is_read pc areg] in *. redop.
+  - (* LDBM *) destruct (in_mem o) eqn:M; [|discriminate]. apply ok3_inv in H; destruct H as [<- [<- <-]]. cbn [is_read pc areg] in *. redop.
     unfold abs. cbn [r_pc r_areg r_breg r_oreg r_mem]. destruct R as [R _]. cbn [pc] in R.
     rewrite (addr0_ok o M), (pc1_ok _ Hpc R). reflexivity.
-  - (* STAM *) destruct (in_mem o) eqn:M; [|discriminate]. injection H as <- <- <-. cbn [is_read pc areg] in *. redop.
+  - (* STAM *) destruct (in_mem o) eqn:M; [|discriminate]. apply ok3_inv in H; destruct H as [<- [<- <-]]. cbn [is_read pc areg] in *. redop.
     unfold abs. cbn [r_pc r_areg r_breg r_oreg r_mem]. destruct R as [R _]. cbn [pc] in R.
     rewrite (addr0_ok o M), (pc1_ok _ Hpc R). reflexivity.
-  - (* LDAC *) injection H as <- <- <-. cbn [is_read pc areg] in *. redop.
+  - (* LDAC *) apply ok3_inv in H; destruct H as [<- [<- <-]]. cbn [is_read pc areg] in *. redop.
     unfold abs. cbn [r_pc r_areg r_breg r_oreg r_mem]. destruct R as [R _]. rewrite (pc1_ok _ Hpc R). reflexivity.
-  - (* LDBC *) injection H as <- <- <-. cbn [is_read pc areg] in *. redop.
+  - (* LDBC *) apply ok3_inv in H; destruct H as [<- [<- <-]]. cbn [is_read pc areg] in *. redop.
     unfold abs. cbn [r_pc r_areg r_breg r_oreg r_mem]. destruct R as [R _]. rewrite (pc1_ok _ Hpc R). reflexivity.
-  - (* LDAP *) injection H as <- <- <-. cbn [is_read pc areg] in *. redop.
+  - (* LDAP *) apply ok3_inv in H; destruct H as [<- [<- <-]]. cbn [is_read pc areg] in *. redop.
     unfold abs. cbn [r_pc r_areg r_breg r_oreg r_mem]. destruct R as [R1 R2]. specialize (R2 eq_refl).
     rewrite (br_ok _ o Hpc Hopr R2), (pc1_ok _ Hpc R1). reflexivity.
-  - (* LDAI *) destruct (in_mem (wrap (r_areg s + o))) eqn:M; [|discriminate]. injection H as <- <- <-. cbn [is_read pc areg] in *. redop.
+  - (* LDAI *) destruct (in_mem (wrap (r_areg s + o))) eqn:M; [|discriminate]. apply ok3_inv in H; destruct H as [<- [<- <-]]. cbn [is_read pc areg] in *. redop.
     unfold abs. cbn [r_pc r_areg r_breg r_oreg r_mem]. destruct R as [R _]. cbn [pc] in R.
     rewrite (addr_ok (r_areg s) o (proj1 Ha) Hopr M), (pc1_ok _ Hpc R). reflexivity.
-  - (* LDBI *) destruct (in_mem (wrap (r_breg s + o))) eqn:M; [|discriminate]. injection H as <- <- <-. cbn [is_read pc areg] in *. redop.
+  - (* LDBI *) destruct (in_mem (wrap (r_breg s + o))) eqn:M; [|discriminate]. apply ok3_inv in H; destruct H as [<- [<- <-]]. cbn [is_read pc areg] in *. redop.
     unfold abs. cbn [r_pc r_areg r_breg r_oreg r_mem]. destruct R as [R _]. cbn [pc] in R.
     rewrite (addr_ok (r_breg s) o (proj1 Hb) Hopr M), (pc1_ok _ Hpc R). reflexivity.
-  - (* STAI *) destruct (in_mem (wrap (r_breg s + o))) eqn:M; [|discriminate]. injection H as <- <- <-. cbn [is_read pc areg] in *. redop.
+  - (* STAI *) destruct (in_mem (wrap (r_breg s + o))) eqn:M; [|discriminate]. apply ok3_inv in H; destruct H as [<- [<- <-]]. cbn [is_read pc areg] in *. redop.
     unfold abs. cbn [r_pc r_areg r_breg r_oreg r_mem]. destruct R as [R _]. cbn [pc] in R.
     rewrite (addr_ok (r_breg s) o (proj1 Hb) Hopr M), (pc1_ok _ Hpc R). reflexivity.
-  - (* BR *) injection H as <- <- <-. cbn [is_read pc areg] in *. redop.
+  - (* BR *) apply ok3_inv in H; destruct H as [<- [<- <-]]. cbn [is_read pc areg] in *. redop.
     unfold abs. cbn [r_pc r_areg r_breg r_oreg r_mem]. destruct R as [R _]. rewrite (br_ok _ o Hpc Hopr R). reflexivity.
-  - (* BRZ *) injection H as <- <- <-. cbn [is_read pc areg] in *. redop.
+  - (* BRZ *) apply ok3_inv in H; destruct H as [<- [<- <-]]. cbn [is_read pc areg] in *. redop.
     unfold abs. cbn [r_pc r_areg r_breg r_oreg r_mem]. destruct R as [R _].
     destruct (r_areg s =? 0); [rewrite (br_ok _ o Hpc Hopr R) | rewrite (pc1_ok _ Hpc R)]; reflexivity.
-  - (* BRN *) injection H as <- <- <-. cbn [is_read pc areg] in *. redop.
+  - (* BRN *) apply ok3_inv in H; destruct H as [<- [<- <-]]. cbn [is_read pc areg] in *. redop.
     unfold abs. cbn [r_pc r_areg r_breg r_oreg r_mem]. destruct R as [R _]. unfold negative in *.
     destruct (2147483648 <=? r_areg s); [rewrite (br_ok _ o Hpc Hopr R) | rewrite (pc1_ok _ Hpc R)]; reflexivity.
   - (* opcode 12 is undefined *) discriminate.
@@ -122,7 +125,7 @@ Proof.
     { intros Hs. pose proof (opr_small s n I ltac:(lia) Hn Hs) as E. split; [exact E|].
       unfold o, r_opr in E. replace (r_oreg s) with (16 * (r_oreg s / 16)) in E by lia. rewrite lor_aligned in E by assumption. lia. }
     destruct o as [|p|p] eqn:Eo.
-    + (* BRB *) destruct (Hsmall ltac:(lia)) as [En _]. rewrite <- En. injection H as <- <- <-. cbn [is_read pc areg] in *. redop.
+    + (* BRB *) destruct (Hsmall ltac:(lia)) as [En _]. rewrite <- En. apply ok3_inv in H; destruct H as [<- [<- <-]]. cbn [is_read pc areg] in *. redop.
       unfold abs. cbn [r_pc r_areg r_breg r_oreg r_mem]. destruct R as [R _]. cbn [pc] in R.
       rewrite (Z.mod_small (r_breg s) M21) by (unfold M21; lia). reflexivity.
     + destruct p as [[p|p|]|[p|p|]|]; try discriminate.
@@ -132,25 +135,169 @@ Proof.
                           = with_mem {| pc := wrap (r_pc s + 1); areg := r_areg s; breg := r_breg s; oreg := 0; mem := m |} (r_mem s) ->
                         True) by auto.
         destruct (r_areg s) as [|q|q] eqn:Ea.
-        -- destruct (in_mem (wrap (rd (r_mem s) 1 + 2))); [|discriminate]. injection H as <- <- <-. cbn [is_read].
+        -- destruct (in_mem (wrap (rd (r_mem s) 1 + 2))); [|discriminate]. apply ok3_inv in H; destruct H as [<- [<- <-]]. cbn [is_read].
            destruct R as [R _]. cbn [pc] in R. unfold abs. cbn [r_pc r_areg r_breg r_oreg r_mem]. rewrite (pc1_ok _ Hpc R). reflexivity.
         -- destruct q as [[q|q|]|[q|q|]|]; try discriminate.
            ++ destruct (in_mem (wrap (rd (r_mem s) 1 + 2))); [|discriminate].
               destruct (simin inp (rd (r_mem s) (wrap (rd (r_mem s) 1 + 2)))) as [bb inp2].
-              destruct (in_mem (wrap (rd (r_mem s) 1 + 1))); [|discriminate]. injection H as <- <- <-. cbn [is_read].
+              destruct (in_mem (wrap (rd (r_mem s) 1 + 1))); [|discriminate]. apply ok3_inv in H; destruct H as [<- [<- <-]]. cbn [is_read].
               destruct R as [R _]. cbn [pc] in R. unfold abs, with_mem. cbn [r_pc r_areg r_breg r_oreg r_mem pc areg breg oreg mem].
               rewrite (pc1_ok _ Hpc R). reflexivity.
            ++ destruct (in_mem (wrap (rd (r_mem s) 1 + 2))); [|discriminate].
-              destruct (in_mem (wrap (rd (r_mem s) 1 + 3))); [|discriminate]. injection H as <- <- <-. cbn [is_read].
+              destruct (in_mem (wrap (rd (r_mem s) 1 + 3))); [|discriminate]. apply ok3_inv in H; destruct H as [<- [<- <-]]. cbn [is_read].
               destruct R as [R _]. cbn [pc] in R. unfold abs. cbn [r_pc r_areg r_breg r_oreg r_mem]. rewrite (pc1_ok _ Hpc R). reflexivity.
         -- discriminate.
-      * (* SUB *) destruct (Hsmall ltac:(lia)) as [En _]. rewrite <- En. injection H as <- <- <-. cbn [is_read pc areg] in *. redop.
+      * (* SUB *) destruct (Hsmall ltac:(lia)) as [En _]. rewrite <- En. apply ok3_inv in H; destruct H as [<- [<- <-]]. cbn [is_read pc areg] in *. redop.
         unfold abs. cbn [r_pc r_areg r_breg r_oreg r_mem]. destruct R as [R _]. rewrite (pc1_ok _ Hpc R). unfold wrap, W, M32. reflexivity.
-      * (* ADD *) destruct (Hsmall ltac:(lia)) as [En _]. rewrite <- En. injection H as <- <- <-. cbn [is_read pc areg] in *. redop.
+      * (* ADD *) destruct (Hsmall ltac:(lia)) as [En _]. rewrite <- En. apply ok3_inv in H; destruct H as [<- [<- <-]]. cbn [is_read pc areg] in *. redop.
         unfold abs. cbn [r_pc r_areg r_breg r_oreg r_mem]. destruct R as [R _]. rewrite (pc1_ok _ Hpc R). unfold wrap, W, M32. reflexivity.
     + discriminate.
-  - (* PFIX *) injection H as <- <- <-. cbn [is_read pc areg] in *. redop.
+  - (* PFIX *) apply ok3_inv in H; destruct H as [<- [<- <-]]. cbn [is_read pc areg] in *. redop.
     unfold abs. cbn [r_pc r_areg r_breg r_oreg r_mem]. destruct R as [R _]. rewrite (pc1_ok _ Hpc R). unfold wrap, W, M32. reflexivity.
-  - (* NFIX *) injection H as <- <- <-. cbn [is_read pc areg] in *. redop.
+  - (* NFIX *) apply ok3_inv in H; destruct H as [<- [<- <-]]. cbn [is_read pc areg] in *. redop.
     unfold abs. cbn [r_pc r_areg r_breg r_oreg r_mem]. destruct R as [R _]. rewrite (pc1_ok _ Hpc R). unfold wrap, W, M32. reflexivity.
+Qed.
+
+(* ------------------------------------------------------------------ the system-call shim of the testbench
+   (hextb.cpp handleSyscall): runs when the design raises o_syscall_valid, before the clock edge that retires the SVC;
+   index arithmetic is unsigned 32-bit, as in the C++ *)
+Definition set_mem (s : rstate) (m : WMap.t) : rstate :=
+  {| r_pc := r_pc s; r_areg := r_areg s; r_breg := r_breg s; r_oreg := r_oreg s; r_mem := m |}.
+Definition shim (valid call : Z) (s : rstate) (inp : inputs) : rstate * inputs * event :=
+  if valid =? 0 then (s, inp, Tau) else
+  let m := r_mem s in let sp := rd m 1 in
+  if call =? 0 then (s, inp, Exit (rd m (wrap (sp + 2))))
+  else if call =? 1 then (s, inp, Write (rd m (wrap (sp + 2)) mod 256) (rd m (wrap (sp + 3))))
+  else if call =? 2 then
+    let st := rd m (wrap (sp + 2)) in
+    let '(b, inp') := simin inp st in (set_mem s (wr m (wrap (sp + 1)) (b mod 256)), inp', Read st (b mod 256))
+  else (s, inp, Tau).
+
+(* the request lines of the reference datapath drive the shim to exactly the ISA's event, input consumption and
+   (for READ) memory effect *)
+Theorem shim_matches_isa s inp a' inp' ev :
+  Inv s -> step (abs s) inp = Ok (a', inp', ev) ->
+  shim (ref_syscall_valid s) (ref_syscall s) s inp = ((if is_read ev then set_mem s (mem a') else s), inp', ev).
+Proof.
+  intros [Wf I] H. pose proof Wf as [Hpc [Ha [Hb [Ho Hm]]]].
+  unfold step in H. rewrite fetch_abs in H. cbn [pc areg breg oreg mem abs] in H.
+  destruct (negb (in_mem (r_pc s / 4))) eqn:Hin; [discriminate|].
+  unfold shim, ref_syscall_valid, ref_syscall.
+  set (k := r_fetch s) in *.
+  assert (Hk : 0 <= k < 256) by (unfold k, r_fetch; apply Z.mod_pos_bound; lia).
+  set (n := k mod 16) in *. assert (Hn : 0 <= n < 16) by (unfold n; apply Z.mod_pos_bound; lia).
+  assert (Hn' : n = k mod 16) by reflexivity.
+  fold (r_opr s n) in H. pose proof (opr_nonneg s n Wf ltac:(lia)) as Hopr.
+  set (o := r_opr s n) in *.
+  remember (k / 16) as op eqn:Hop.
+  assert (Hcases : op = 0 \/ op = 1 \/ op = 2 \/ op = 3 \/ op = 4 \/ op = 5 \/ op = 6 \/ op = 7 \/ op = 8 \/ op = 9 \/
+                   op = 10 \/ op = 11 \/ op = 12 \/ op = 13 \/ op = 14 \/ op = 15) by lia.
+  destruct (Z.eq_dec op 13) as [E13|N13].
+  2:{ replace (k =? 211) with false by (symmetry; apply Z.eqb_neq; lia). cbn [Z.eqb].
+      destruct Hcases as [ -> | [ -> | [ -> | [ -> | [ -> | [ -> | [ -> | [ -> | [ -> | [ -> | [ -> | [ -> | [ -> | [ -> | [ -> | -> ]]]]]]]]]]]]]]];
+        try lia; try discriminate;
+        repeat match type of H with (if ?c then _ else _) = _ => destruct c; [|discriminate] end;
+        apply ok3_inv in H; destruct H as [<- [<- <-]]; reflexivity. }
+  subst op. rewrite E13 in H.
+  assert (Hsmall : 0 <= o <= 3 -> o = n) by (intros Hs; apply (opr_small s n I ltac:(lia) Hn Hs)).
+  destruct o as [|p|p] eqn:Eo.
+  - replace (k =? 211) with false by (symmetry; apply Z.eqb_neq; pose proof (Hsmall ltac:(lia)); lia). cbn [Z.eqb].
+    apply ok3_inv in H; destruct H as [<- [<- <-]]; reflexivity.
+  - destruct p as [[p|p|]|[p|p|]|]; try discriminate.
+    + (* SVC *) replace (k =? 211) with true by (symmetry; apply Z.eqb_eq; pose proof (Hsmall ltac:(lia)); lia).
+      change (1 =? 0) with false. cbv iota.
+      destruct (in_mem 1) eqn:M1; [|discriminate].
+      destruct (r_areg s) as [|q|q] eqn:Ea.
+      * change (0 mod 4 =? 0) with true. cbv iota.
+        destruct (in_mem (wrap (rd (r_mem s) 1 + 2))); [|discriminate]. apply ok3_inv in H; destruct H as [<- [<- <-]]. reflexivity.
+      * destruct q as [[q|q|]|[q|q|]|]; try discriminate.
+        -- change (2 mod 4 =? 0) with false. change (2 mod 4 =? 1) with false. change (2 mod 4 =? 2) with true. cbv iota.
+           destruct (in_mem (wrap (rd (r_mem s) 1 + 2))); [|discriminate].
+           destruct (simin inp (rd (r_mem s) (wrap (rd (r_mem s) 1 + 2)))) as [bb inp2].
+           destruct (in_mem (wrap (rd (r_mem s) 1 + 1))); [|discriminate]. apply ok3_inv in H; destruct H as [<- [<- <-]]. reflexivity.
+        -- change (1 mod 4 =? 0) with false. change (1 mod 4 =? 1) with true. cbv iota.
+           destruct (in_mem (wrap (rd (r_mem s) 1 + 2))); [|discriminate].
+           destruct (in_mem (wrap (rd (r_mem s) 1 + 3))); [|discriminate]. apply ok3_inv in H; destruct H as [<- [<- <-]]. reflexivity.
+      * discriminate.
+    + replace (k =? 211) with false by (symmetry; apply Z.eqb_neq; pose proof (Hsmall ltac:(lia)); lia). cbn [Z.eqb].
+      apply ok3_inv in H; destruct H as [<- [<- <-]]; reflexivity.
+    + replace (k =? 211) with false by (symmetry; apply Z.eqb_neq; pose proof (Hsmall ltac:(lia)); lia). cbn [Z.eqb].
+      apply ok3_inv in H; destruct H as [<- [<- <-]]; reflexivity.
+  - discriminate.
+Qed.
+
+(* ------------------------------------------------------------------ the invariant is preserved *)
+Lemma lor32 a b : 0 <= a < M32 -> 0 <= b < M32 -> 0 <= Z.lor a b < M32.
+Proof. intros Ha Hb. change M32 with (2 ^ Z.max 32 32). apply lor_bound; assumption. Qed.
+
+Lemma opr_range s n : wf s -> 0 <= n < 16 -> 0 <= r_opr s n < M32.
+Proof. intros [_ [_ [_ [Ho _]]]] Hn. apply lor32; [assumption | unfold M32; lia]. Qed.
+
+Lemma wf_set_mem s m : wf s -> (forall a, 0 <= a -> 0 <= rd m a < M32) -> wf (set_mem s m).
+Proof. intros [? [? [? [? _]]]] Hm. unfold wf. cbn [set_mem r_pc r_areg r_breg r_oreg r_mem]. split; [|split; [|split; [|split]]]; assumption. Qed.
+
+Lemma rd_wr_range m a v : (forall b, 0 <= b -> 0 <= rd m b < M32) -> 0 <= a -> 0 <= v < M32 ->
+  forall b, 0 <= b -> 0 <= rd (wr m a v) b < M32.
+Proof.
+  intros Hm Ha Hv b Hb. destruct (Z.eq_dec a b) as [->|N]; [rewrite rd_wr_same; assumption|].
+  rewrite rd_wr_other by assumption. apply Hm. assumption.
+Qed.
+
+Lemma ref_cycle_wf s : wf s -> wf (ref_cycle s).
+Proof.
+  intros Wf. pose proof Wf as [Hpc [Ha [Hb [Ho Hm]]]]. unfold ref_cycle. cbv zeta.
+  set (k := r_fetch s). assert (Hn : 0 <= k mod 16 < 16) by (apply Z.mod_pos_bound; lia).
+  pose proof (opr_range s (k mod 16) Wf Hn) as Hopr.
+  assert (Hdd : 0 <= rd (r_mem s) (r_daddr s (k / 16) (k mod 16)) < M32) by (apply Hm; apply r_daddr_nonneg).
+  assert (H21 : forall x, 0 <= x mod M21 < M32) by (intros x; pose proof (Z.mod_pos_bound x M21 ltac:(unfold M21; lia)); unfold M21, M32 in *; lia).
+  assert (H32 : forall x, 0 <= x mod M32 < M32) by (intros x; apply Z.mod_pos_bound; unfold M32; lia).
+  unfold wf. cbn [r_pc r_areg r_breg r_oreg r_mem]. split; [|split; [|split; [|split]]].
+  - unfold ref_pc, r_br, r_pc1; repeat match goal with |- context[if ?c then _ else _] => destruct c end;
+      apply Z.mod_pos_bound; unfold M21; lia.
+  - unfold ref_areg, r_br; repeat match goal with |- context[if ?c then _ else _] => destruct c end;
+      try apply H21; try apply H32; lia.
+  - unfold ref_breg; repeat match goal with |- context[if ?c then _ else _] => destruct c end; lia.
+  - unfold ref_oreg; repeat match goal with |- context[if ?c then _ else _] => destruct c end;
+      try apply H32; try (apply lor32; [unfold M32; lia | apply H32]); unfold M32; lia.
+  - intros adr Hq. destruct (spec_we (k / 16) =? 0); [apply Hm; assumption|].
+    apply rd_wr_range; try assumption. apply r_daddr_nonneg.
+Qed.
+
+Lemma ref_cycle_inv s : Inv s -> Inv (ref_cycle s).
+Proof.
+  intros [Wf I]. split; [apply ref_cycle_wf; assumption|].
+  unfold ref_cycle. cbv zeta. cbn [r_oreg]. unfold ref_oreg.
+  set (o := r_opr s (r_fetch s mod 16)).
+  destruct (r_fetch s / 16 =? 14); [unfold M32; lia|].
+  destruct (r_fetch s / 16 =? 15); [|reflexivity].
+  rewrite lor_mod16; [|lia | apply Z.mod_pos_bound; unfold M32; lia].
+  replace ((o * 16) mod M32 mod 16) with 0 by (unfold M32; lia). reflexivity.
+Qed.
+
+Definition reset_state (m : WMap.t) : rstate := {| r_pc := 0; r_areg := 0; r_breg := 0; r_oreg := 0; r_mem := m |}.
+Lemma reset_inv m : (forall a, 0 <= a -> 0 <= rd m a < M32) -> Inv (reset_state m).
+Proof.
+  intros Hm. unfold Inv, wf, reset_state. cbn [r_pc r_areg r_breg r_oreg r_mem].
+  split; [split; [|split; [|split; [|split]]]|]; try assumption; try reflexivity; unfold M21, M32; lia.
+Qed.
+
+(* ------------------------------------------------------------------ SVC retires as pc+1, oreg := 0 *)
+Lemma ref_cycle_svc s : r_fetch s = 211 ->
+  ref_cycle s = {| r_pc := (r_pc s + 1) mod M21; r_areg := r_areg s; r_breg := r_breg s; r_oreg := 0; r_mem := r_mem s |}.
+Proof. intros E. unfold ref_cycle. rewrite E. reflexivity. Qed.
+
+Lemma shim_wf v c s inp s1 inp1 ev : wf s -> shim v c s inp = (s1, inp1, ev) ->
+  wf s1 /\ r_pc s1 = r_pc s /\ r_areg s1 = r_areg s /\ r_breg s1 = r_breg s /\ r_oreg s1 = r_oreg s /\
+  (is_read ev = false -> s1 = s) /\ (is_read ev = true -> v <> 0).
+Proof.
+  intros Wf H. unfold shim in H. destruct (v =? 0) eqn:V.
+  { injection H as <- <- <-. split; [assumption|]; repeat split; auto; try discriminate. }
+  apply Z.eqb_neq in V. cbv zeta in H.
+  destruct (c =? 0); [injection H as <- <- <-; split; [assumption|]; repeat split; auto; discriminate|].
+  destruct (c =? 1); [injection H as <- <- <-; split; [assumption|]; repeat split; auto; discriminate|].
+  destruct (c =? 2); [|injection H as <- <- <-; split; [assumption|]; repeat split; auto; discriminate].
+  destruct (simin inp _) as [b i2]. injection H as <- <- <-. split; [|repeat split; auto; discriminate].
+  apply wf_set_mem; [assumption|]. destruct Wf as [_ [_ [_ [_ Hm]]]].
+  apply rd_wr_range; [assumption | unfold wrap, W; apply Z.mod_pos_bound; lia |].
+  pose proof (Z.mod_pos_bound b 256 ltac:(lia)). unfold M32. lia.
 Qed.
